@@ -142,10 +142,11 @@ abbrev PG (U : Type) := List (List (Node U) × Rat)
 
 def flat (pgs : PG U) : List (Node U) := pgs.flatMap (·.1)
 
-/-- stable insertion (Python's `sorted`/`list.sort` are stable) -/
+/-- insertion in front of the first element that is not lighter: with `foldr` this is a stable
+    sort (Python's `sorted`/`list.sort` are stable) -/
 def insertByMass (x : List (Node U) × Rat) : PG U → PG U
   | [] => [x]
-  | y :: r => if x.2 < y.2 then x :: y :: r else y :: insertByMass x r
+  | y :: r => if y.2 < x.2 then y :: insertByMass x r else x :: y :: r
 
 def sortByMass (pgs : PG U) : PG U := pgs.foldr (fun x acc => insertByMass x acc) []
 
@@ -182,7 +183,7 @@ def applySwap (pgs : PG U) (gi j : Nat) (k : Option Nat) (l : Nat) : Option (PG 
 /-- stable insertion of an index by the probability of its node -/
 def insertIdx (ga : List (Node U)) (x : Nat) : List Nat → List Nat
   | [] => [x]
-  | y :: r => if ((ga[x]?).map (·.prob)).getD 0 < ((ga[y]?).map (·.prob)).getD 0 then x :: y :: r else y :: insertIdx ga x r
+  | y :: r => if ((ga[y]?).map (·.prob)).getD 0 < ((ga[x]?).map (·.prob)).getD 0 then y :: insertIdx ga x r else x :: y :: r
 
 /-- `sorted(range(len(group_a)), key=lambda idx: group_a[idx].probability)` -/
 def orderOf (ga : List (Node U)) : List Nat := (List.range ga.length).foldr (insertIdx ga) []
